@@ -249,6 +249,8 @@ PROPS["C17"] = dict(
 
 # deep-input suites additionally run in the unoptimised dev profile with debug assertions (the profile `cargo test` uses):
 # iterative code that silently becomes recursive, or a debug_assert! that walks a structure, only shows there
+PROPS["C18"]["termsrc"] = True
+PROPS["C19"]["termsrc"] = True
 PROPS["C18"]["suites_dev"] = ["deep"]
 PROPS["C19"]["suites_dev"] = ["deep"]
 PROPS["C12"]["suites_dev"] = ["ops:deep"]
